@@ -93,6 +93,7 @@ inline int compare_runs(const Plan& p, const std::vector<OpOut>& ref, const std:
     std::vector<int> ru, wu, rq, wq;
     for (int j = from; j < (int)p.ops.size(); j++) {
         const Op& o = p.ops[(size_t)j];
+        if (ref[(size_t)j].aborted || out[(size_t)j].aborted) break;   // nothing after a fail-stop is comparable
         if (o.kind == OP_LOSE || j == skip) continue;
         op_reads_writes(o, ru, wu, rq, wq);
         bool tin = false;
@@ -546,10 +547,12 @@ template <class C> Verdict check_C12(const Plan& plan, Stats& st) {
         RunOut<C> ref = run_plan<C>(q, st, false, false);
         Violation v;
         if (pick_violation("C12", ref.viol, st, &v)) return make_verdict(q, v, ref.hash);
-        if (!has_loss || ref.aborted) continue;
+        if (!has_loss) continue;
+        // (a reference run that ended in a fail-stop of another kind still serves: the comparison stops at that op,
+        //  and loads from a dead buffer are violations on their own)
         RunOut<C> out = run_plan<C>(q, st, false, true);
         int fired = 0;
-        for (size_t i = 0; i < q.ops.size(); i++) if (q.ops[i].kind == OP_LOSE && !out.outs[i].skipped) fired++;
+        for (size_t i = 0; i < q.ops.size(); i++) if (q.ops[i].kind == OP_LOSE && !out.outs[i].skipped && out.outs[i].aux > 0) fired++;
         if (fired) { st.fault("source_loss", (unsigned long long)fired); st.nontrivial++; unsigned long long h = sig_of_ops(q); for (auto& o : out.outs) h = fnv1a(o.digest, h); st.signatures.insert(h); }
         else st.fault("source_loss.configured_not_fired");
         if (pick_violation("C12", out.viol, st, &v)) return make_verdict(q, v, out.hash);
